@@ -343,7 +343,7 @@ impl Version {
         if input.len() > MAX_LENGTH {
             return Err(SemverError {
                 input: input.into(),
-                span: (input.len() - 1, 0).into(),
+                span: (last_char_offset(input), 0).into(),
                 kind: SemverErrorKind::MaxLengthError,
             });
         }
@@ -445,6 +445,12 @@ impl Version {
         // high and low are preleases
         Some(VersionDiff::PreRelease)
     }
+}
+
+/// Byte offset at which the last character of `input` starts (0 for an empty string).
+/// Unlike `len() - 1` this is always a character boundary.
+fn last_char_offset(input: &str) -> usize {
+    input.char_indices().next_back().map_or(0, |(offset, _)| offset)
 }
 
 impl PartialEq for Version {
